@@ -178,7 +178,7 @@ func c06Child(run *evid.Run, batch, nb int, j *Journal) {
 func c06Case(run *evid.Run, i int, j *Journal) {
 	codecs := []string{"cbor", "cbor", "link", "pb"}
 	rng := rand.New(rand.NewSource(run.Seed*9973 + int64(i)))
-	opts := hx.GenOpts{MaxSteps: pick(run.Tier, 30, 60), Orders: []string{"default", "hash"}, Codecs: []string{codecs[i%len(codecs)]}}
+	opts := hx.GenOpts{MaxSteps: pick(run.Tier, 30, 60), Orders: []string{"default", "hash"}, Codecs: []string{codecs[i%len(codecs)]}, Huge: true}
 	h := hx.Gen(run.Seed, i, opts)
 	big := i%16 == 5
 	j.Log(map[string]any{"case": i, "codec": h.Codec, "phase": "history", "hist": fmt.Sprintf("seed=%d idx=%d", h.Seed, h.Idx)})
@@ -669,6 +669,78 @@ func c06Case(run *evid.Run, i int, j *Journal) {
 			run.Violate("C06/look-alike-handed-out", d, wit(desc), "Get() no longer returns the validated entry (%s)", desc)
 		}
 		run.NonTrivial("look-alike/" + kind + "/" + where + "/" + h.Codec)
+	}
+
+	// (f') the destination is a PARTIAL replica (the newest n entries of a log, loaded with a length limit): the entry
+	// its own oldest entry points to is missing. The offered log has, exactly under that hash, a tampered object -
+	// or the genuine entry, which the destination's controller denies. Being linked to by an entry the destination
+	// already holds makes a candidate no less a candidate: refused (log unchanged), or at least not admitted.
+	for r, l := range x.Logs {
+		heads := l.Heads().Slice()
+		if h.Codec == "pb" || len(heads) != 1 || l.Len() < 3 || (i+r)%2 != 1 {
+			continue
+		}
+		n := 1 + rng.Intn(l.Len()-1)
+		dst, err := x.W.LoadHash(heads[0].GetHash(), 0, &hx.LoadOpts{Length: &n})
+		if err != nil || dst == nil {
+			continue
+		}
+		var missing []iface.IPFSLogEntry
+		seen := map[string]bool{}
+		for _, e := range dst.GetEntries().Slice() {
+			for _, c := range e.GetNext() {
+				if !dst.Has(c) && !seen[c.String()] {
+					seen[c.String()] = true
+					if pe, ok := l.Get(c); ok && pe != nil {
+						missing = append(missing, pe)
+					}
+				}
+			}
+		}
+		if len(missing) == 0 {
+			continue
+		}
+		victim := missing[rng.Intn(len(missing))]
+		kind := []string{"payload", "sigflip", "nosig", "clock", "denied", "denied"}[rng.Intn(6)]
+		ents := l.GetEntries()
+		var ce iface.IPFSLogEntry = victim
+		if kind == "denied" {
+			vp := string(victim.GetPayload())
+			dst.AccessController = &policy{name: "deny-one-payload", denyPay: func(p []byte) bool { return string(p) == vp }}
+		} else {
+			ce, _ = corrupt(kind, victim, victim, rng)
+			ents.Set(victim.GetHash().String(), ce)
+		}
+		lo2 := x.W.LogOpts(x.W.LogID)
+		lo2.Entries = ents
+		lo2.Heads = heads
+		src, err := ipfslog.NewLog(x.W.Store.API(), x.W.Idents[0], lo2)
+		if err != nil {
+			panic(err)
+		}
+		desc := fmt.Sprintf("partial copy of r%d (newest %d of %d) <- r%d's log with a %s object under the hash %s that the partial copy's own entries point to", r, n, l.Len(), r, kind, hx.Short(victim.GetHash().String()))
+		j.Log(map[string]any{"case": i, "codec": h.Codec, "phase": "missing-parent-look-alike", "desc": desc})
+		before := hx.Observe(dst)
+		_, jerr := dst.Join(src, -1)
+		hx.OnObserve = nil
+		after := hx.Observe(dst)
+		InstallObserveHook(run)
+		run.Count("merges_offering_a_bad_object_under_the_hash_of_a_missing_parent", 1)
+		d := det("codec", h.Codec, "kind", kind)
+		if jerr != nil {
+			if df := obsEqual(before, after); df != "" {
+				run.Violate("C06/refused-merge-changed-log", d, wit(desc), "a refused merge (%v) changed the log: %s (%s)", jerr, df, desc)
+			}
+		}
+		if got, ok := dst.Get(victim.GetHash()); ok && got != nil {
+			switch {
+			case kind == "denied":
+				run.Violate("C06/denied-entry-admitted", d, wit(desc), "the merge (returned %v) admitted an entry the destination's controller denies (%s)", jerr, desc)
+			case hx.ContentDigest(got) != hx.ContentDigest(victim):
+				run.Violate("C06/invalid-entry-admitted", d, wit(desc), "the merge (returned %v) admitted the %s object: the log holds it under %s (%s)", jerr, kind, hx.Short(victim.GetHash().String()), desc)
+			}
+		}
+		run.NonTrivial("missing-parent/" + kind + "/" + h.Codec)
 	}
 
 	// (g) a validly signed NEW entry whose hash field names an entry the destination holds, filed in the offered
